@@ -86,22 +86,6 @@ theorem split_parallel_hot (hot cold : List Seg) (lo hi a b r : Rat) (t : Target
       rw [aboveAll_cons, aboveAll_cons, aboveAll_cons, above_split_parallel]; ring)
     rfl (by rw [total_cons, total_cons, total_cons, duty_split_parallel]; ring)
 
-theorem aboveAll_shift (d : Rat) (ss : List Seg) (x : Rat) : aboveAll (ss.map (Seg.shift d)) (x + d) = aboveAll ss x := by
-  unfold aboveAll
-  rw [List.map_map]
-  congr 1
-  apply List.map_congr_left
-  intro s _
-  exact above_shift d s x
-
-theorem total_map_eq (f : Seg → Seg) (hf : ∀ s, duty (f s) = duty s) (ss : List Seg) : total (ss.map f) = total ss := by
-  unfold total
-  rw [List.map_map]
-  congr 1
-  apply List.map_congr_left
-  intro s _
-  exact hf s
-
 /-- **Translation**: the targets are unchanged and every temperature at which the deficit attains
     them — every pinch — moves by the shift. -/
 theorem translate_invariant (d : Rat) (hot cold : List Seg) (t : Targets) (h : IsTargets hot cold t) :
@@ -119,16 +103,6 @@ theorem translate_invariant (d : Rat) (hot cold : List Seg) (t : Targets) (h : I
   · rw [total_map_eq _ (duty_shift d), total_map_eq _ (duty_shift d)]; exact h.qc
   · rw [total_map_eq _ (duty_shift d)]; exact h.qr
 
-theorem aboveAll_scale (k : Rat) (ss : List Seg) (x : Rat) : aboveAll (ss.map (Seg.scale k)) x = k * aboveAll ss x := by
-  induction ss with
-  | nil => simp [aboveAll]
-  | cons s ss ih => rw [List.map_cons, aboveAll_cons, aboveAll_cons, ih, above_scale]; ring
-
-theorem total_scale (k : Rat) (ss : List Seg) : total (ss.map (Seg.scale k)) = k * total ss := by
-  induction ss with
-  | nil => simp [total]
-  | cons s ss ih => rw [List.map_cons, total_cons, total_cons, ih, duty_scale]; ring
-
 /-- **Scaling** all duties by `k ≥ 0` scales the three targets by `k`; the pinch stays. -/
 theorem scale_linear (k : Rat) (hk : 0 ≤ k) (hot cold : List Seg) (t : Targets) (h : IsTargets hot cold t) :
     IsTargets (hot.map (Seg.scale k)) (cold.map (Seg.scale k)) ⟨k * t.qh, k * t.qc, k * t.qr⟩ := by
@@ -140,15 +114,6 @@ theorem scale_linear (k : Rat) (hk : 0 ≤ k) (hot cold : List Seg) (t : Targets
     exact ⟨x, by rw [key, hx]⟩
   · simp only; rw [total_scale, total_scale, h.qc]; ring
   · simp only; rw [total_scale, h.qr]; ring
-
-theorem aboveAll_mirror (ss : List Seg) (hs : ∀ s ∈ ss, s.lo ≤ s.hi) (x : Rat) :
-    aboveAll (ss.map Seg.mirror) (-x) = total ss - aboveAll ss x := by
-  induction ss with
-  | nil => simp [aboveAll, total]
-  | cons s ss ih =>
-    rw [List.map_cons, aboveAll_cons, aboveAll_cons, total_cons, ih (fun s' h' => hs s' (by simp [h'])),
-      above_mirror s (hs s (by simp))]
-    ring
 
 /-- **Mirroring** the temperature axis: the mirrored cold streams act as hot streams and vice versa;
     `Qh` and `Qc` swap and `Qr` is unchanged. -/
